@@ -2,7 +2,7 @@
 From Coq Require Import String.
 From Coq Require Import List Bool Arith NArith.
 Import ListNotations.
-Require Import Str DriverIp DriverJun DriverText DriverCli.
+Require Import Str DriverIp DriverJun DriverText DriverCli DriverFn.
 Local Open Scope N_scope.
 
 Definition run_case (fields : list str) : str :=
@@ -13,6 +13,7 @@ Definition run_case (fields : list str) : str :=
       else if str_eqb cmd (lit "pipe") then run_pipe fields
       else if str_eqb cmd (lit "asr") then run_asr fields
       else if str_eqb cmd (lit "mainm") then run_mainm fields
+      else if str_eqb cmd (lit "gbase") then run_gbase fields
       else lit "BADCMD"
   | [] => lit "BADCMD"
   end.
